@@ -1,5 +1,6 @@
 (** Correspondence check for C03: the model is run on the inputs the implementation ran on. *)
-From Verif Require Import GoSem Audio.
+From Verif Require Import GoSem Audio AudioRef.
+From Verif Require Timeline.
 From Coq Require Import ZifyBool.
 
 (** Observed outcome classes: 0 = value, 1 = error return (HTTP 500 at the public boundary), 2 = panic. *)
@@ -13,6 +14,11 @@ Inductive c03kind :=
        [canon] maps a source frame index to the first index with the same content ([] = identity) *)
 | KCreate (fx : bool) (F : Z) (tab : list seg) (rc : recipe) (ocls : Z) (otfdt oseq : Z) (oframes : list Z)
     (* createAudioSeg on an arbitrary recipe; [fx]: which version of L115 the implementation has (see Audio.seg_loop) *)
+| KReq (fx : bool) (vr : Timeline.rep) (loopMS startNr F a : Z) (tab : list seg) (canon : list Z)
+       (mode segID nowMS : Z) (ocls : Z) (otfdt oseq : Z) (oframes : list Z)
+    (* a whole audio request through the HTTP router: reference lookup by number ([mode = 0]) or by
+       time ([mode = 1]), recipe, createAudioSeg. Default configuration (start 0, tsbd 60 s, ato 0).
+       Classes: 0 = 200, 1 = 500, 2 = panic, 3 = 404, 4 = 425, 5 = 410 *)
 | KTimeline (startNr refT : Z) (entries : list (Z * Z)) (r F a : Z) (ocls : Z) (obs : list (Z * Z * Z))
     (* generateTimelineEntriesFromRef: produced entries (t or -1, d, r) *).
 
@@ -31,6 +37,27 @@ Definition out_ok (canon : list Z) (m : res outseg) (ocls otfdt oseq : Z) (ofram
   | Ok o => (ocls =? 0) && (o_tfdt o =? otfdt) && (o_seq o =? oseq)
             && list_eqb Z.eqb (map (canon_of canon) (o_frames o)) oframes
   | _ => cls m =? ocls
+  end.
+
+Definition ocls_of {A} (o : Timeline.outcome A) : Z :=
+  match o with
+  | Timeline.TOk _ => 0 | Timeline.TErr _ => 1 | Timeline.TPanic _ => 2
+  | Timeline.TNotFound => 3 | Timeline.TTooEarly _ => 4 | Timeline.TGone => 5
+  end.
+
+Definition req_cfg (startNr : Z) : Timeline.tcfg :=
+  {| Timeline.startS := 0; Timeline.startNr := startNr; Timeline.tsbdS := 60; Timeline.ato := Some 0 |}.
+
+Definition req_model (fx : bool) (vr : Timeline.rep) (loopMS startNr F a : Z) (tab : list seg) (mode segID nowMS : Z)
+  : Timeline.outcome outseg :=
+  audio_request fx vr loopMS (req_cfg startNr) F a tab
+                (if mode =? 0 then Timeline.ByNumber else Timeline.ByTime) segID nowMS.
+
+Definition req_ok (canon : list Z) (m : Timeline.outcome outseg) (ocls otfdt oseq : Z) (oframes : list Z) : bool :=
+  match m with
+  | Timeline.TOk o => (ocls =? 0) && (o_tfdt o =? otfdt) && (o_seq o =? oseq)
+                      && list_eqb Z.eqb (map (canon_of canon) (o_frames o)) oframes
+  | _ => ocls_of m =? ocls
   end.
 
 Definition entry_view (s : sentry) : Z * Z * Z :=
@@ -58,6 +85,8 @@ Definition case_ok (c : c03case) : bool :=
       out_ok canon (audio_segment fx nr s e D r F a tab) ocls otfdt oseq oframes
   | KCreate fx F tab rc ocls otfdt oseq oframes =>
       out_ok [] (create_audio_seg fx F tab rc) ocls otfdt oseq oframes
+  | KReq fx vr loopMS startNr F a tab canon mode segID nowMS ocls otfdt oseq oframes =>
+      req_ok canon (req_model fx vr loopMS startNr F a tab mode segID nowMS) ocls otfdt oseq oframes
   | KTimeline startNr refT entries r F a ocls obs =>
       match audio_timeline startNr refT entries r F a with
       | Ok l => (ocls =? 0) && list_eqb triple_eqb (map entry_view l) obs
@@ -82,6 +111,11 @@ Definition model_view (c : c03case) : Z * list Z :=
       match calcAudioSegRecipe nr s e D r F a with Ok rc => (0, recipe_view rc) | m => (cls m, []) end
   | KSeg fx nr s e D r F a tab _ _ _ _ _ => out_view (audio_segment fx nr s e D r F a tab)
   | KCreate fx F tab rc _ _ _ _ => out_view (create_audio_seg fx F tab rc)
+  | KReq fx vr loopMS startNr F a tab _ mode segID nowMS _ _ _ _ =>
+      match req_model fx vr loopMS startNr F a tab mode segID nowMS with
+      | Timeline.TOk o => out_view (Ok o)
+      | m => (ocls_of m, [])
+      end
   | KTimeline startNr refT entries r F a _ _ =>
       match audio_timeline startNr refT entries r F a with
       | Ok l => (0, concat (map (fun s => let '(a, b, c) := entry_view s in [a; b; c]) (firstn 4 l)))
